@@ -67,6 +67,22 @@ func RandomMUSInput(r *Rng, maxVars, maxClauses int) (cnf [][]int, n int) {
 			cnf = append(cnf, append([]int{}, c...))
 		}
 	}
+	if len(cnf) > 0 && r.Chance(1, 4) { // clauses written with a repeated literal or a complementary pair
+		for k := r.Range(1, 2); k > 0; k-- {
+			i := r.Intn(len(cnf))
+			c := append([]int{}, cnf[i]...)
+			if len(c) == 0 {
+				continue
+			}
+			x := c[r.Intn(len(c))]
+			if r.Chance(1, 4) {
+				x = -x
+			}
+			pos := r.Intn(len(c) + 1)
+			c = append(c[:pos], append([]int{x}, c[pos:]...)...)
+			cnf[i] = c
+		}
+	}
 	// shuffle
 	p := r.Perm(len(cnf))
 	c2 := make([][]int, len(cnf))
